@@ -6,6 +6,8 @@ import OidcModel.Proofs.Cfb
 import OidcModel.Proofs.Base64
 import OidcModel.Spec.C12
 import OidcModel.Generated.Codec
+import OidcModel.GoTac
+set_option linter.unusedSimpArgs false
 namespace C12
 open Codec
 
@@ -627,7 +629,23 @@ theorem lookup_foldKV_set (d : Codec.Obj) (hd : (keys d).Nodup) (m : Codec.Obj) 
 def mergedMap (r custom : Codec.Obj) : Codec.Obj :=
   GoX.foldKV r (GoX.foldKV custom ([] : Codec.Obj) (fun m k v => GoX.mapSet m k v)) (fun m k v => GoX.mapSet m k v)
 
-/-- `mergeAndMarshalClaims`, for every registered encoding (or encoding error), every custom map, every encoder answer -/
+theorem len_beq_zero (l : Codec.Obj) : ((Go.len l : Int) == 0) = l.isEmpty := by
+  cases l with
+  | nil => rfl
+  | cons c cs =>
+    show ((((c :: cs).length : Nat) : Int) == 0) = false
+    simp only [List.length_cons, beq_eq_false_iff_ne, ne_eq]; omega
+theorem len_bne_zero (l : Codec.Obj) : ((Go.len l : Int) != 0) = !l.isEmpty := by
+  simp only [bne, len_beq_zero]
+theorem len_gt_zero (l : Codec.Obj) : decide ((Go.len l : Int) > 0) = !l.isEmpty := by
+  cases l with
+  | nil => rfl
+  | cons c cs =>
+    show decide ((((c :: cs).length : Nat) : Int) > 0) = true
+    simp only [List.length_cons, decide_eq_true_eq]; omega
+
+/-- `mergeAndMarshalClaims`, for every registered encoding (or encoding error), every custom map, every encoder answer
+    (characterisation lemma: the library twins are unfolded, the branches are closed by the shape-independent `go_leaf`) -/
 theorem c12_merge_exact (now : Int) (o : Oracles) (reg : Reg) (custom : Codec.Obj) :
     (GenCodec.mergeAndMarshalClaims now o reg custom).2 =
       match reg.enc with
@@ -636,17 +654,8 @@ theorem c12_merge_exact (now : Int) (o : Oracles) (reg : Reg) (custom : Codec.Ob
         if custom.isEmpty = true then .ok [r]
         else if o.mapEncodable (mergedMap r custom) = true then .ok [mergedMap r custom] else .error "error:oidc custom claims: %w" := by
   unfold GenCodec.mergeAndMarshalClaims
-  cases hr : reg.enc with
-  | error e => simp [bufEncode, Encodable.enc, hr]
-  | ok r =>
-    cases custom with
-    | nil => simp [bufEncode, Encodable.enc, hr, Go.len, Go.HasLen.len, Buf.empty, Buf.Bytes]
-    | cons c cs =>
-      have hpos : decide ((Go.len (c :: cs) : Int) > 0) = true := by
-        show decide ((((c :: cs).length : Nat) : Int) > 0) = true
-        simp only [List.length_cons, decide_eq_true_eq]; omega
-      simp only [bufEncode, Encodable.enc, hr, Buf.empty, List.nil_append, hpos, if_true, bufDecodeInto, List.isEmpty_cons, Bool.false_eq_true, if_false]
-      cases henc : o.mapEncodable (mergedMap r (c :: cs)) <;> simp [mergedMap, Buf.Bytes] at henc ⊢ <;> simp [henc]
+  simp only [bufEncode, Encodable.enc, bufDecodeInto, Buf.empty, Buf.Bytes, mergedMap, len_gt_zero, len_beq_zero, len_bne_zero, List.nil_append]
+  go_leaf
 
 theorem lookup_mergedMap (r custom : Codec.Obj) (hr : (keys r).Nodup) (hc : (keys custom).Nodup) (k : String) :
     lookup (mergedMap r custom) k = (lookup r k).or (lookup custom k) := by
